@@ -201,7 +201,9 @@ func getBreakersOfResource(resource string) []CircuitBreaker {
 	return ret
 }
 
-func calculateReuseIndexFor(r *Rule, oldResCbs []CircuitBreaker) (equalIdx, reuseStatIdx int) {
+// laterRules are the rules that follow r in the list being loaded: an old controller that is equivalent to one of
+// them is going to be kept for that rule and must not lend its statistic to r.
+func calculateReuseIndexFor(r *Rule, oldResCbs []CircuitBreaker, laterRules []*Rule) (equalIdx, reuseStatIdx int) {
 	// the index of equivalent rule in old circuit breaker slice
 	equalIdx = -1
 	// the index of statistic reusable rule in old circuit breaker slice
@@ -216,6 +218,16 @@ func calculateReuseIndexFor(r *Rule, oldResCbs []CircuitBreaker) (equalIdx, reus
 		}
 		// find the index of first StatReusable rule
 		if !oldRule.isStatReusable(r) {
+			continue
+		}
+		reserved := false
+		for _, later := range laterRules {
+			if later != nil && oldRule.isEqualsTo(later) {
+				reserved = true
+				break
+			}
+		}
+		if reserved {
 			continue
 		}
 		if reuseStatIdx >= 0 {
@@ -407,12 +419,12 @@ func ClearRulesOfResource(res string) error {
 // BuildResourceCircuitBreaker builds CircuitBreaker slice from rules. the resource of rules must be equals to res
 func BuildResourceCircuitBreaker(res string, rulesOfRes []*Rule, oldResCbs []CircuitBreaker) []CircuitBreaker {
 	newCbsOfRes := make([]CircuitBreaker, 0, len(rulesOfRes))
-	for _, r := range rulesOfRes {
+	for i, r := range rulesOfRes {
 		if res != r.Resource {
 			logging.Error(errors.Errorf("unmatched resource name expect: %s, actual: %s", res, r.Resource), "Unmatched resource name in circuitBreaker.BuildResourceCircuitBreaker()", "rule", r)
 			continue
 		}
-		equalIdx, reuseStatIdx := calculateReuseIndexFor(r, oldResCbs)
+		equalIdx, reuseStatIdx := calculateReuseIndexFor(r, oldResCbs, rulesOfRes[i+1:])
 
 		// First check equals scenario
 		if equalIdx >= 0 {
